@@ -41,6 +41,7 @@ type Contract struct {
 	Ghosts   []SpecParam // ghost parameters (universally quantified in the callee, bound by unique type match at call sites)
 	Line     int
 	Trusted  bool // contract assumed, body not verified
+	Dead     []string // source-line fragments of code that may be unreachable under the contracts (error paths excluded by preconditions or by callees that cannot fail)
 }
 
 type UnlockClause struct {
@@ -140,7 +141,7 @@ func parseContractFile(path string) (*ContractFile, error) {
 	sc := bufio.NewScanner(f)
 	sc.Buffer(make([]byte, 1<<20), 1<<20)
 	ln := 0
-	kwRe := regexp.MustCompile(`^(props|overflow|requires|ensures|modifies|loop|trusted|attr|induction|ghost|decreases|unlock)\b\s*(.*)$`)
+	kwRe := regexp.MustCompile(`^(props|overflow|requires|ensures|modifies|loop|trusted|attr|induction|ghost|decreases|unlock|dead)\b\s*(.*)$`)
 	for sc.Scan() {
 		ln++
 		line := strings.TrimSpace(sc.Text())
@@ -368,6 +369,8 @@ func parseContractFile(path string) (*ContractFile, error) {
 					if len(f) >= 1 {
 						c.Attrs[f[0]] = strings.Join(f[1:], " ")
 					}
+				case "dead":
+					c.Dead = append(c.Dead, strings.TrimSpace(rc.text))
 				case "trusted":
 					c.Trusted = true
 					c.Attrs["trusted"] = strings.TrimSpace(rc.text)
